@@ -101,3 +101,18 @@ package keeper
 //@              && (forall q Bz :: q != types.PendingResolveListStoreKey ==> Store_oracle[q] == s1[q]))
 //@     && (!due ==> Store_oracle == s1))
 //@ ensures err != nil ==> Store_oracle == old(Store_oracle)
+
+// Resolution runs the oracle script (external VM) and saves exactly one result for a request that has
+// none; it needs the request record. (Body not verified: owasm VM, IBC; see C13/C02 for the signing part.)
+//@ func (k Keeper) ResolveRequest
+//@ trusted
+//@ modifies Store_oracle, Other, Bank
+//@ requires has(Store_oracle, types.RequestStoreKey(reqID)) && !has(Store_oracle, types.ResultStoreKey(reqID))
+//@ ensures  has(Store_oracle, types.ResultStoreKey(reqID))
+//@ ensures  forall q Bz :: q != types.ResultStoreKey(reqID) && q != types.SigningResultStoreKey(reqID) ==> Store_oracle[q] == old(Store_oracle)[q]
+
+//@ func (k Keeper) ProcessExpiredRequests
+//@ trusted
+//@ modifies Store_oracle
+//@ ensures  Store_oracle[types.PendingResolveListStoreKey] == old(Store_oracle)[types.PendingResolveListStoreKey]
+//@ ensures  forall id Int :: old(has(Store_oracle, types.ResultStoreKey(id))) ==> Store_oracle[types.ResultStoreKey(id)] == old(Store_oracle)[types.ResultStoreKey(id)]
